@@ -490,16 +490,20 @@ def m_before_sleep(it, fn, args, kwargs, node):
             env_raise(it, "before_sleep")
         return None
 
-    if w.is_async and not getattr(w, "twin", False) and it.path.choose(2, "before_sleep-awaitable") == 1:
-        return AwaitableV(outcome)
+    if w.is_async and not getattr(w, "twin", False):
+        k = it.path.choose(3, "before_sleep-awaitable")  # plain value | coroutine | other awaitable
+        if k:
+            return AwaitableV(outcome, is_coroutine=(k == 1))
     return outcome()
 
 
 class AwaitableV:
-    """value returned by an async user callback: inspect.isawaitable() is True; awaiting it runs `thunk`"""
+    """value returned by an async user callback: inspect.isawaitable() is True; awaiting it runs `thunk`.
+    is_coroutine distinguishes a native coroutine object from any other awaitable (Future, Task, __await__ object)."""
 
-    def __init__(self, thunk):
+    def __init__(self, thunk, is_coroutine=True):
         self.thunk = thunk
+        self.is_coroutine = is_coroutine
 
 
 def m_sleeper(it, fn, args, kwargs, node):
@@ -521,8 +525,14 @@ def m_sleeper(it, fn, args, kwargs, node):
         advance_clock(it, by=sf.v)  # assumed: a sleeper advances the monotonic clock by at least its argument
         return None
 
-    if w.is_async and (fn is None or (not getattr(w, "twin", False) and it.path.choose(2, "sleeper-awaitable") == 1)):
-        return AwaitableV(outcome)
+    if w.is_async:
+        if fn is None or getattr(w, "twin", False):
+            if fn is None:
+                return AwaitableV(outcome)  # asyncio.sleep(...) returns a coroutine
+        else:
+            k = it.path.choose(3, "sleeper-awaitable")  # plain value | coroutine | other awaitable
+            if k:
+                return AwaitableV(outcome, is_coroutine=(k == 1))
     return outcome()
 
 
@@ -572,6 +582,15 @@ def install_env(it):
         return isinstance(args[0], AwaitableV) or (isinstance(args[0], tuple) and args[0] and args[0][0] in ("awaitable", "coro_done"))
 
     it.ext_models["inspect.isawaitable"] = isawaitable
+
+    def iscoroutine(it_, args, kwargs, node):
+        v = args[0]
+        if isinstance(v, AwaitableV):
+            return v.is_coroutine
+        return isinstance(v, tuple) and bool(v) and v[0] == "coro_done"
+
+    it.ext_models["inspect.iscoroutine"] = iscoroutine
+    it.ext_models["asyncio.iscoroutine"] = iscoroutine
 
     # strategies may expose record_success/record_failure (AdaptiveStrategy); arbitrary presence, non-raising no-ops
     def strategy_attr(it_, fn, attr, default):
